@@ -57,18 +57,18 @@ TGet == /\ Is("get")
                d == Decided(h, kn, dd, G, h.maxage)
                c == TLCGet(3)
            IN  /\ G.g0 <= G.g1
-               /\ f = {} \/ (Diag /\ Say("get", f))
+               /\ IF f = {} THEN TRUE ELSE Diag /\ Say("get", f)
                /\ TLCSet(3, <<c[1] + d[1], c[2] + d[2], c[3] + d[3], c[4] + Len(G.res)>>)
                /\ kn' = KnNext(h, kn, G) /\ ob' = ObNext(h, ob, G) /\ dd' = DdNext(h, kn, ob, dd, G)
         /\ UNCHANGED h
 
 \* Add blocks while In is full: none of the late Adds returned while nothing could be consumed
 THeld == /\ Is("held")
-         /\ (Ev.returned = 0 /\ Ev.len = Ev.cap) \/ (Diag /\ Say("held", {"add_returned_while_full"}))
+         /\ IF Ev.returned = 0 /\ Ev.len = Ev.cap THEN TRUE ELSE Diag /\ Say("held", {"add_returned_while_full"})
          /\ UNCHANGED <<h, kn, ob, dd>>
 
 TEnd == /\ Is("end")
-        /\ Ev.stuck = 0 \/ (Diag /\ Say("end", {"stuck"}))
+        /\ IF Ev.stuck = 0 THEN TRUE ELSE Diag /\ Say("end", {"stuck"})
         /\ UNCHANGED <<h, kn, ob, dd>>
 
 TNext == THist \/ TGet \/ THeld \/ TEnd
